@@ -46,6 +46,10 @@ def gen_cases(tier, seed):
         r = rng(seed, "C09", "mem", k)
         specs = [G.gen_file(r, "disk", unique=j, length=r.choice(G.DISK_LEN + [r.randrange(0, 9000)])) for j in range(r.choice([2, 3, 5, 8]))]
         yield {"id": "memdisk/%d" % k, "kind": "own", "files": specs, "order": None if k % 3 else sorted(range(68), key=lambda g: r.random())}
+    for k in range(400 if thorough else 40):
+        r = rng(seed, "C09", "memtape", k)
+        specs = [G.gen_file(r, "tape", length=r.choice(G.TAPE_LEN[1:] + [r.randrange(1, 3000)])) for _ in range(r.choice([2, 3, 4, 6]))]
+        yield {"id": "memtape/%d" % k, "kind": "owntape", "files": specs}
     for fill in (0x00, 0xFF):
         yield {"id": "bigcas/%02X" % fill, "kind": "bigcas", "fill": fill}
     yield {"id": "cas-empty-then-append", "kind": "cas-empty"}
@@ -272,6 +276,11 @@ def run_case(case, ctx):
         from vlib import media_disk
         media_disk._run_case(case, ctx)
         ctx.cell("memdisk")
+        return
+    if case["kind"] == "owntape":
+        from vlib import media_tape
+        media_tape._run_case(dict(case, kind="own"), ctx)
+        ctx.cell("memtape")
         return
     if case["kind"] == "history":
         return run_history(case, ctx)
